@@ -32,7 +32,7 @@ def run_one(kind, rid):
                 shutil.copy(s, scratch)
         # warm build directories (dependencies already checked) so that only the crate itself is rebuilt
         tag = scratch.replace('/', '_')
-        for pre in ('target-default-', 'target-borsh-', 'witness-'):
+        for pre in ('target-default-', 'target-borsh-', 'witness-', 'target-witness-'):
             src_ = os.path.join(VERIF, '.cache', pre + '_repo')
             if os.path.isdir(src_):
                 sh('cp -r %s %s' % (src_, os.path.join(VERIF, '.cache', pre + tag)))
@@ -49,7 +49,7 @@ def run_one(kind, rid):
     finally:
         shutil.rmtree(scratch, ignore_errors=True)
         tag = scratch.replace('/', '_')
-        for pre in ('target-default-', 'target-borsh-', 'witness-'):
+        for pre in ('target-default-', 'target-borsh-', 'witness-', 'target-witness-'):
             shutil.rmtree(os.path.join(VERIF, '.cache', pre + tag), ignore_errors=True)
 
 
